@@ -1,13 +1,160 @@
-(* Props/C09.v — parsing honours operator precedence, grouping and layout-insensitivity. *)
+(* Props/C09.v — parsing honours operator precedence, grouping and
+   layout-insensitivity.
+
+   Objects: Gen/OpTable.v (regenerated from operation.go on every run),
+   Spec/PrecSpec.v (precedence relation between operator classes),
+   Model/Postfix.v (ConvertToPostfix), Model/Tree.v (createExpressionTree,
+   parse), Spec/PrecGrammar.v (the grammar: operands, f(x), infix, ( ) [ ] { },
+   a[i]; okp = parentheses present where this shunting-yard needs them).
+   The regex lexer is not modelled: layout-insensitivity is tested by the
+   correspondence check, not proved (partial). *)
 From Coq Require Import String.
-From YQ Require Import Base.Str Gen.OpTable Model.Postfix Spec.PrecSpec Proofs.PrecTableProofs.
+From YQ Require Import Base.Str Gen.OpTable Model.Postfix Model.Tree Spec.PrecSpec Spec.PrecGrammar
+  Proofs.PrecTableProofs Proofs.PostfixProofs.
 Open Scope N_scope.
 
-(* The regenerated Precedence numbers order every pair of specified operators
-   exactly as the specified class relation does. *)
+(* ---- the regenerated table against the specified relation ---- *)
+
+(* The Precedence numbers order every pair of specified operators exactly as
+   the class relation does (invariant under monotone renumbering, broken by
+   any swap/merge/split of classes). *)
 Theorem C09_table_matches_spec :
   forall a b, In a spec_classes -> In b spec_classes ->
   exists pa pb, prec_of (fst a) = Some pa /\ prec_of (fst b) = Some pb /\
                 N.compare pa pb = N.compare (snd a) (snd b).
 Proof. exact table_matches_spec. Qed.
 Print Assumptions C09_table_matches_spec.
+
+(* NumArgs of the operators of the grammar are what the tree builder needs. *)
+Theorem C09_table_arity_matches_spec :
+  forall a, In a spec_arity -> nargs_of (fst a) = Some (snd a).
+Proof. exact table_arity. Qed.
+Print Assumptions C09_table_arity_matches_spec.
+
+(* Every operator flagged CheckForPostTraverse binds tighter than the
+   SHORT_PIPE / TRAVERSE_ARRAY the post-processing inserts after it. *)
+Theorem C09_table_post_traverse_binds :
+  forall oi, In oi op_table -> oi_cpt oi = true ->
+  exists sp ta, prec_of "shortPipeOpType" = Some sp /\ prec_of "traverseArrayOpType" = Some ta /\
+                sp < oi_prec oi /\ ta < oi_prec oi.
+Proof. exact table_post_traverse. Qed.
+Print Assumptions C09_table_post_traverse_binds.
+
+(* Every operand-like operator of the table (NumArgs <= 1), except del (by
+   specification) and min/max (finding), binds tighter than every infix
+   operator a user can write. *)
+Theorem C09_table_operands_bind_tighter :
+  forall oi, In oi op_table -> oi_nargs oi <= 1 ->
+  (forall n, In n operand_exempt -> oi_var oi <> str_of_string n) ->
+  forall n, In n user_infix -> exists p, prec_of n = Some p /\ p < oi_prec oi.
+Proof. exact table_operands. Qed.
+Print Assumptions C09_table_operands_bind_tighter.
+
+(* min / max are operands by specification but carry the comparison number. *)
+Theorem C09_min_max_precedence_refuted :
+  exists a b, In a spec_classes_violated /\ In b spec_classes /\
+    exists pa pb, prec_of (fst a) = Some pa /\ prec_of (fst b) = Some pb /\
+                  N.compare pa pb <> N.compare (snd a) (snd b).
+Proof. exact min_max_refuted. Qed.
+Print Assumptions C09_min_max_precedence_refuted.
+
+(* ... with the consequence on parsing: `. | min == 1` is (. == 1) | min. *)
+Theorem C09_min_max_misparsed_refuted :
+  wf_termb w_minmax_term = true /\
+  parse w_minmax_flat =
+    Ok (Some (Node w_pipe (Some (Node w_eq (Some (Node w_self None None)) (Some (Node w_one None None))))
+                          (Some (Node w_min None None)))) /\
+  parse w_minmax_flat <> Ok (Some (ttree w_minmax_term)) /\
+  render (pmin w_minmax_term) <> w_minmax_flat.
+Proof. exact minmax_misparsed. Qed.
+Print Assumptions C09_min_max_misparsed_refuted.
+
+(* ---- shunting-yard and tree builder, unbounded ---- *)
+
+(* (a) the tree builder inverts the postfix listing of every well-formed tree *)
+Theorem C09_tree_of_postfix :
+  forall t, wf_tree t -> create_expression_tree (postfix_of t) = Ok (Some t).
+Proof. exact tree_of_postfix. Qed.
+Print Assumptions C09_tree_of_postfix.
+
+(* the stack invariant itself: after the tokens of e the operators of its
+   right spine are on the stack and everything else has been emitted *)
+Theorem C09_stack_invariant :
+  forall e, okp e -> forall S R rest, stack_safe e S -> top_not_ta S ->
+  run (render e ++ rest) S R = run rest (List.map SOp (pending e) ++ S) (R ++ emitted e).
+Proof. exact run_render. Qed.
+Print Assumptions C09_stack_invariant.
+
+(* every expression of the grammar whose parentheses are where the strict-`>`
+   shunting-yard needs them parses to the tree it denotes *)
+Theorem C09_parse_correct :
+  forall e, okp e -> parse (render e) = Ok (Some (tree_of e)).
+Proof. exact parse_render. Qed.
+Print Assumptions C09_parse_correct.
+
+(* (b) the minimally and the fully parenthesised spelling of every term give
+   the same tree, the one the term denotes (equal precedence nests right) *)
+Theorem C09_parse_min_eq_full :
+  forall t, wf_termb t = true ->
+  parse (render (pmin t)) = Ok (Some (ttree t)) /\
+  parse (render (pfull t)) = Ok (Some (ttree t)).
+Proof. exact parse_min_eq_full. Qed.
+Print Assumptions C09_parse_min_eq_full.
+
+(* (c) redundant parentheses around any sub-expressions do not change the tree *)
+Theorem C09_redundant_parens :
+  forall e e', okp e -> addp e e' -> parse (render e') = parse (render e).
+Proof. exact redundant_parens. Qed.
+Print Assumptions C09_redundant_parens.
+
+Theorem C09_same_tree_same_parse :
+  forall e e', okp e -> okp e' -> tree_of e = tree_of e' -> parse (render e) = parse (render e').
+Proof. exact same_tree_same_parse. Qed.
+Print Assumptions C09_same_tree_same_parse.
+
+(* (d) unbalanced brackets are rejected, for EVERY token list, unless a `)`
+   at nesting depth zero closes the implicit outer bracket *)
+Theorem C09_unbalanced_rejected_partial :
+  forall ts, ~ balanced ts -> ~ escapes_outer ts -> exists e, parse ts = Err e.
+Proof. exact unbalanced_rejected. Qed.
+Print Assumptions C09_unbalanced_rejected_partial.
+
+(* ... and that exception is real: `1 ) ( | 2` is accepted as 1 | 2 *)
+Theorem C09_unbalanced_rejected_refuted :
+  exists ts t, ~ balanced ts /\ parse ts = Ok (Some t).
+Proof. eexists; eexists; exact close_open_accepted. Qed.
+Print Assumptions C09_unbalanced_rejected_refuted.
+
+(* the tree builder accepts exactly the postfix lists whose arities add up
+   to one result without underflow: missing operands are rejected there *)
+Theorem C09_tree_builder_rejects_missing_operands :
+  forall ops, (exists t, create_expression_tree ops = Ok (Some t)) <->
+              (ops <> [] /\ depth_after ops 0 = Some 1%nat).
+Proof. exact tree_builder_accepts_iff. Qed.
+Print Assumptions C09_tree_builder_rejects_missing_operands.
+
+(* ... but ConvertToPostfix turns some malformed infix lists into well-formed
+   postfix: `1 2 +` (operator last, no right operand) is accepted as 2 + 1 *)
+Theorem C09_missing_operand_rejected_refuted :
+  exists ts o t, o_nargs o = 2 /\ parse (ts ++ [TOp o]) = Ok (Some t).
+Proof. eexists; eexists; eexists; exact postfix_order_accepted. Qed.
+Print Assumptions C09_missing_operand_rejected_refuted.
+
+(* chains of equal precedence nest to the right: 1 - 2 - 3 is 1 - (2 - 3) *)
+Theorem C09_equal_precedence_nests_right :
+  parse [TOp w_one; TOp w_sub; TOp w_two; TOp w_sub; TOp w_three] =
+    Ok (Some (Node w_sub (Some (Node w_one None None))
+                (Some (Node w_sub (Some (Node w_two None None)) (Some (Node w_three None None)))))) /\
+  parse [TOp w_two; TOp w_mul; TOp w_three; TOp w_add; TOp w_one] =
+    Ok (Some (Node w_mul (Some (Node w_two None None))
+                (Some (Node w_add (Some (Node w_three None None)) (Some (Node w_one None None)))))).
+Proof. exact equal_precedence_nests_right. Qed.
+Print Assumptions C09_equal_precedence_nests_right.
+
+(* the hypotheses are satisfiable and the two spellings really differ:
+   (1 | 2) + select(.a == 1)[length]?  *)
+Example C09_example :
+  wf_termb w_example = true /\ okp (pmin w_example) /\ okp (pfull w_example) /\
+  render (pmin w_example) <> render (pfull w_example) /\
+  List.length (render (pmin w_example)) = 16%nat.
+Proof. exact example_ok. Qed.
